@@ -32,6 +32,10 @@ type tvCase struct {
 	Tokens    map[string]string `json:"tokens,omitempty"`
 	Literals  [][]string        `json:"literals,omitempty"`
 	Strings   []string          `json:"strings,omitempty"`
+	BigNums   []struct {
+		Text   []string `json:"text"`
+		Expect string   `json:"expect"`
+	} `json:"bignumbers,omitempty"`
 }
 
 func scannerKind(lit string) (kind string, panicked bool) {
@@ -132,6 +136,16 @@ func tvEval(c *core.Ctx, cs tvCase) []core.Finding {
 				fs = append(fs, tvLiteral(l, "string")...)
 				if sk, p := scannerKind(l); p || sk != "string" {
 					fs = append(fs, core.Finding{Class: "literal-kind:string:" + strings.Trim(l, `"`), What: fmt.Sprintf("scanner classifies %s as %s, expected string", l, sk)})
+				}
+			}
+			for _, b := range cs.BigNums {
+				// texts at the edges of the machine types: both classifiers must agree with each other and, where
+				// they do, the specification's kind is what the text says (C13 owns exponent range limits)
+				lit := strings.Join(b.Text, "")
+				bf := tvLiteral(lit, b.Expect)
+				fs = append(fs, bf...)
+				if sk, p := scannerKind(lit); len(bf) == 0 && !p && sk != b.Expect && !strings.ContainsAny(lit, "eE") {
+					fs = append(fs, core.Finding{Class: "literal-kind:number:" + numGrammarClass(lit), What: fmt.Sprintf("both classifiers call %s %s, the text is %s", lit, sk, b.Expect)})
 				}
 			}
 			for _, l := range cs.Literals {
